@@ -150,13 +150,13 @@ const (
 
 // StepCase is one monitored Step.
 type StepCase struct {
-	Pre        z80.States
-	Bytes      []uint8 // placed at PC (wrapping)
-	IOSeed     uint64
-	PreHALT    bool // CPU.HALT already true before the Step (sticky flag; Step must behave the same)
-	NoHandlers bool // no RETN/RETI handler registered
+	Pre            z80.States
+	Bytes          []uint8 // placed at PC (wrapping)
+	IOSeed         uint64
+	PreHALT        bool // CPU.HALT already true before the Step (sticky flag; Step must behave the same)
+	NoHandlers     bool // no RETN/RETI handler registered
 	PendingRefused bool // a maskable request is pending with IFF1 clear: it is refused, stays pending, and the instruction runs as usual
-	MoveCPU    bool // chain mode: continue on a by-value copy of the CPU struct; the old struct is scribbled over
+	MoveCPU        bool // chain mode: continue on a by-value copy of the CPU struct; the old struct is scribbled over
 }
 
 // StepOutcome is what the monitor observed.
